@@ -190,7 +190,7 @@ func faceUV(face int, u, v float64) s2.Point {
 
 type anchor struct {
 	name string
-	cell s2.CellID // level 16
+	cell s2.CellID // level 16 (thorough: also 8, 12, 20, 24)
 }
 
 const anchorLevel = 16
@@ -212,7 +212,7 @@ func walk(c s2.CellID, k int) s2.CellID {
 
 func facesAround(c s2.CellID) int {
 	seen := map[int]bool{c.Face(): true}
-	for _, n := range c.AllNeighbors(anchorLevel) {
+	for _, n := range c.AllNeighbors(c.Level()) {
 		seen[n.Face()] = true
 	}
 	return len(seen)
@@ -235,6 +235,13 @@ func anchors(tier string) []anchor {
 		out = append(out, anchor{fmt.Sprintf("face%d-centre", f), c}, anchor{fmt.Sprintf("face%d-edge", f), edge}, anchor{fmt.Sprintf("face%d-cube-corner", f), corner})
 	}
 	if tier == "thorough" {
+		// the same kinds of place at other cell levels (8 and 12: cells far
+		// larger than the finest indexed level 16; 20 and 24: far smaller)
+		for _, b := range []anchor{out[0], out[1], out[5], out[9]} {
+			for _, l := range []int{8, 12, 20, 24} {
+				out = append(out, anchor{fmt.Sprintf("%s@L%d", b.name, l), atLevel(b.cell, l)})
+			}
+		}
 		out = append(out, anchor{"interior-south", s2.CellIDFromLatLng(s2.LatLngFromDegrees(-33.9, 18.4)).Parent(anchorLevel)},
 			anchor{"interior-dateline", s2.CellIDFromLatLng(s2.LatLngFromDegrees(-16.5, 179.99999)).Parent(anchorLevel)})
 	}
@@ -485,7 +492,7 @@ func (s *scene) queries(tier string) []qspec {
 		fixed("cells", "cells "+cellsName(ids), b6.NewIntersectsCellUnion(s2.CellUnion(ids)))
 	}
 	otherFace := (c.Face() + 1) % 6
-	for _, n := range c.AllNeighbors(anchorLevel) {
+	for _, n := range c.AllNeighbors(c.Level()) {
 		if n.Face() != c.Face() {
 			otherFace = n.Face()
 			break
@@ -500,7 +507,7 @@ func (s *scene) queries(tier string) []qspec {
 	}
 	cellq(c.Parent(1))
 	cellq(c)
-	nbs := c.AllNeighbors(anchorLevel)
+	nbs := c.AllNeighbors(c.Level())
 	for _, n := range nbs {
 		cellq(n)
 	}
@@ -578,6 +585,14 @@ func (s *scene) queries(tier string) []qspec {
 		fixed("multipolygon", "multipolygon="+firstArea.name+"+"+lastArea.name, b6.IntersectsMultiPolygon{MultiPolygon: m})
 	}
 	fixed("multipolygon", "multipolygon=cell-of-neighbour", b6.IntersectsMultiPolygon{MultiPolygon: geometry.MultiPolygon{s2.PolygonFromCell(s2.CellFromCellID(c.EdgeNeighbors()[1]))}})
+	// several polygons far apart: the features meeting only the second one must be found too
+	farCell := c.EdgeNeighbors()[0].EdgeNeighbors()[0].EdgeNeighbors()[0]
+	farPoly := func() *s2.Polygon { return s2.PolygonFromCell(s2.CellFromCellID(farCell)) }
+	herePoly := func() *s2.Polygon { return s2.PolygonFromCell(s2.CellFromCellID(c)) }
+	fixed("multipolygon", "multipolygon=[cell-3-away,anchor-cell]", b6.IntersectsMultiPolygon{MultiPolygon: geometry.MultiPolygon{farPoly(), herePoly()}})
+	fixed("multipolygon", "multipolygon=[anchor-cell,cell-3-away]", b6.IntersectsMultiPolygon{MultiPolygon: geometry.MultiPolygon{herePoly(), farPoly()}})
+	fixed("multipolygon", "multipolygon=[cell-3-away,big-square-0.3,anchor-cell]", b6.IntersectsMultiPolygon{MultiPolygon: geometry.MultiPolygon{farPoly(),
+		polygonOf([][]s2.Point{{faceUV((c.Face()+3)%6, -0.3, -0.3), faceUV((c.Face()+3)%6, 0.3, -0.3), faceUV((c.Face()+3)%6, 0.3, 0.3), faceUV((c.Face()+3)%6, -0.3, 0.3)}}), herePoly()}})
 	fixed("multipolygon", "multipolygon=level-5-cell", b6.IntersectsMultiPolygon{MultiPolygon: geometry.MultiPolygon{s2.PolygonFromCell(s2.CellFromCellID(c.Parent(5)))}})
 
 	// intersecting-feature: every feature, and an absent one
@@ -590,3 +605,30 @@ func (s *scene) queries(tier string) []qspec {
 }
 
 func cidOf(p s2.Point) s2.CellID { return s2.CellFromPoint(p).ID() }
+
+// atLevel returns a cell at the level in the same kind of place as the
+// level-16 cell c: an ancestor, or the descendant with the same number of cube
+// faces around it that is nearest to the face centre / face boundary.
+func atLevel(c s2.CellID, level int) s2.CellID {
+	if level <= c.Level() {
+		return c.Parent(level)
+	}
+	want := facesAround(c)
+	centre := faceUV(c.Face(), 1e-12, 1e-12)
+	for c.Level() < level {
+		ch := c.Children()
+		next := ch[0]
+		found := false
+		for _, k := range ch {
+			ok := facesAround(k) == want
+			if want == 1 && s2.CellFromCellID(c).ContainsPoint(centre) {
+				ok = s2.CellFromCellID(k).ContainsPoint(centre)
+			}
+			if ok && !found {
+				next, found = k, true
+			}
+		}
+		c = next
+	}
+	return c
+}
